@@ -471,9 +471,14 @@ def _parser_method(M, pv, name, args, kwargs):
         if name == "getfloat":
             return M.b_float([v], {})
         if name == "getboolean":
-            low = M.lower(sym.sstr(v)) if isinstance(v, SV) else v.lower()
             yes = ["1", "yes", "true", "on"]
             no = ["0", "no", "false", "off"]
+            saved = E.lower_hints
+            E.lower_hints = list(saved) + [w for w in yes + no if w not in saved]      # case-fold axioms for the words compared below
+            try:
+                low = M.lower(sym.sstr(v)) if isinstance(v, SV) else v.lower()
+            finally:
+                E.lower_hints = saved
             if E.decide(sym.isin(low, yes)):
                 return True
             if E.decide(sym.isin(low, no)):
